@@ -9,7 +9,7 @@ ensures a protocol (`Canonicalize.cleanUrl`).  On a string whose `strip` has the
 host and port: `clean_shape`.
 -/
 namespace Ural.UrlPattern
-open Ural.Py Ural.Py.Re Ural.Gen.Patterns Ural.UrlParts Ural.UrlRoundTrip Ural.CanonRoundTrip
+open Ural.Py Ural.Py.Re Ural.Py.Re.Extra Ural.Gen.Patterns Ural.UrlParts Ural.UrlRoundTrip Ural.CanonRoundTrip
 open Ural.Quote
 
 /-! ## `upper_quoted` piece by piece -/
